@@ -202,6 +202,14 @@ func MakeItem(it Item, id int, y Yielder, log *EventLog) interface{} {
 			return string(b)
 		}
 		return it.S
+	case "x":
+		// a text of exactly N bytes (S repeated and cut)
+		b := make([]byte, 0, it.N+len(it.S)+1)
+		for len(b) < it.N {
+			b = append(b, it.S...)
+			b = append(b, '.')
+		}
+		return string(b[:it.N])
 	case "i":
 		return it.N
 	case "b":
